@@ -34,7 +34,7 @@ def main():
     meta = {"id": name, "property": prop, "source": "independent sub-agent given only the property text and a scratch worktree",
             "verified_at": time.strftime("%Y-%m-%dT%H:%M:%SZ", time.gmtime()), "steps": {}}
     shutil.rmtree(demo, ignore_errors=True); os.makedirs(demo)
-    for f in ("demo.c", "build.sh", "README.md"):
+    for f in ["demo.c", "build.sh", "README.md"] + [x for x in os.listdir(src) if x.endswith(".h")]:
         if os.path.exists(os.path.join(src, f)): shutil.copy(os.path.join(src, f), demo)
     sh(["git", "-C", "/repo", "worktree", "remove", "--force", wt]); shutil.rmtree(wt, ignore_errors=True)
     rc, o = sh(["git", "-C", "/repo", "worktree", "add", "--detach", wt, "HEAD"])
@@ -70,7 +70,7 @@ def main():
             if ok:
                 os.makedirs(out, exist_ok=True)
                 open(os.path.join(out, "patch.diff"), "w").write(diff)
-                for f in ("demo.c", "build.sh", "README.md"):
+                for f in ["demo.c", "build.sh", "README.md"] + [x for x in os.listdir(demo) if x.endswith(".h")]:
                     if os.path.exists(os.path.join(demo, f)): shutil.copy(os.path.join(demo, f), out)
         rd = os.path.join(src, "README.md")
         meta["needs_to_manifest"] = ""
